@@ -1067,4 +1067,110 @@ example : listCoolers (runP exCfg (pipeline (unorderedPre exTcfg 0 exStream) exC
 example : (runP exCfg (pipeline (producerPre false) exCfg exValid) ⟨some exFile, none⟩) =
     (⟨some exFile, none⟩, some (.err .value)) := by decide
 
+/-! ### option faults: metadata that is not JSON compatible, an option `create()` rejects on entry -/
+
+theorem run_ok_info (cfg : Cfg) (hi : cfg.infoOk = false) (steps : List Step) (fs fs' : FS)
+    (h : run cfg steps fs = (fs', none)) : Step.writeInfo ∉ steps := by
+  induction steps generalizing fs with
+  | nil => simp
+  | cons s ss ih =>
+    unfold run at h
+    split at h
+    · simp at h
+    · rename_i hf
+      intro hm
+      rcases List.mem_cons.mp hm with rfl | hm
+      · simp [Step.fails, hi] at hf
+      · exact ih _ h hm
+
+/-- **bad_metadata_never_completes.**  With `metadata` that `json.dumps` rejects, no creation completes:
+whatever the stream, some step raises (at the latest `write_info`, before it writes any attribute). -/
+theorem bad_metadata_never_completes (cfg : Cfg) (hi : cfg.infoOk = false) (evs : List Ev) (fs : FS) :
+    (run cfg (createSteps cfg evs) fs).2 ≠ none := by
+  intro hn
+  have hrun : run cfg (createSteps cfg evs) fs = ((run cfg (createSteps cfg evs) fs).1, none) := by
+    rw [← hn]
+  have h1 := run_ok_info cfg hi _ fs _ hrun
+  have h2 := run_ok_no_raise cfg _ fs _ hrun
+  rcases chunkSteps_shape cfg evs 0 with h | ⟨pre, hp, _⟩
+  · exact h2 (by rw [createSteps_eq]; simp [bodySteps, h])
+  · exact h1 (by rw [createSteps_eq]; simp [bodySteps, hp])
+
+/-- **bad_metadata_not_cooler.**  … hence such a creation never leaves a cooler where there was none -/
+theorem bad_metadata_not_cooler (cfg : Cfg) (hi : cfg.infoOk = false) (evs : List Ev) (fs : FS)
+    (h0 : isCooler fs cfg.target = false) :
+    isCooler (run cfg (createSteps cfg evs) fs).1 cfg.target = false ∧
+      cfg.target ∉ listCoolers (run cfg (createSteps cfg evs) fs).1 := by
+  cases he : (run cfg (createSteps cfg evs) fs).2 with
+  | none => exact absurd he (bad_metadata_never_completes cfg hi evs fs)
+  | some e =>
+    exact partial_not_cooler cfg evs fs _ e (by rw [← he]) h0
+
+theorem optsPre_isPre (ok : Bool) : ∀ s ∈ optsPre ok, s.isPre = true := by
+  intro s hs
+  cases ok <;> simp [optsPre] at hs
+  subst hs; rfl
+
+theorem unorderedPreBadOpts_isPre (tcfg : Nat → Cfg) (evs : List Ev) :
+    ∀ s ∈ unorderedPreBadOpts tcfg evs, s.isPre = true := by
+  intro s hs
+  cases evs with
+  | nil => simp [unorderedPreBadOpts] at hs; subst hs; rfl
+  | cons ev evs =>
+    cases ev with
+    | raise => simp [unorderedPreBadOpts] at hs; subst hs; rfl
+    | chunk c => simp [unorderedPreBadOpts] at hs; rcases hs with rfl | rfl <;> rfl
+
+/-- a run through preparatory steps that end in a failing check stops at or before that check -/
+theorem runP_stops_at_check (cfg : Cfg) (rest : List PStep) : ∀ (pre : List PStep) (y : Sys),
+    ∃ k, k ≤ pre.length ∧ ∃ e,
+      runP cfg (pre ++ .check false :: rest) y = (runUntilP cfg k (pre ++ .check false :: rest) y, some e) := by
+  intro pre
+  induction pre with
+  | nil => intro y; exact ⟨0, by simp, .err .value, by simp [runP, PStep.fails, runUntilP, execP]⟩
+  | cons s ss ih =>
+    intro y
+    cases hf : s.fails cfg y with
+    | some e => exact ⟨0, by simp, e, by simp [runP, hf, runUntilP, execP]⟩
+    | none =>
+      obtain ⟨k, hk, e, he⟩ := ih (s.eff cfg y)
+      refine ⟨k + 1, by simp; omega, e, ?_⟩
+      simp only [List.cons_append, runP, hf, he]
+      rfl
+
+/-- **bad_opts_dest_untouched.**  An option rejected on entry of `create()` (after any preparatory steps
+`pre`: input checks of merge/coarsen, the pull of chunk 0 in unordered ingestion): the call raises and
+the destination file is exactly as before. -/
+theorem bad_opts_dest_untouched (pre : List PStep) (hpre : ∀ s ∈ pre, s.isPre = true) (cfg : Cfg)
+    (evs : List Ev) (y : Sys) :
+    (runP cfg (pipeline (pre ++ [.check false]) cfg evs) y).2 ≠ none ∧
+      (runP cfg (pipeline (pre ++ [.check false]) cfg evs) y).1.dest = y.dest := by
+  have hpre' : ∀ s ∈ pre ++ [PStep.check false], s.isPre = true := by
+    intro s hs
+    rcases List.mem_append.mp hs with h | h
+    · exact hpre s h
+    · simp at h; subst h; rfl
+  obtain ⟨k, hk, e, he⟩ := runP_stops_at_check cfg ((createSteps cfg evs).map .dest) pre y
+  have heq : pipeline (pre ++ [.check false]) cfg evs = pre ++ .check false :: (createSteps cfg evs).map .dest := by
+    simp [pipeline]
+  rw [heq, he]
+  refine ⟨by simp, ?_⟩
+  rw [← heq]
+  exact pipeline_dest_untouched _ hpre' cfg evs y k (by simp; omega)
+
+/-! non-vacuity -/
+def exCfgBadMeta : Cfg := { exCfg with infoOk := false }
+-- a VALID stream with metadata that is not JSON compatible: every table is written, `write_info` raises
+example : (run exCfgBadMeta (createSteps exCfgBadMeta exValid) (some exFile)).2 = some .type := by decide
+example : isCooler (run exCfgBadMeta (createSteps exCfgBadMeta exValid) (some exFile)).1 ["x", "y"] = false := by decide
+example : ((lookupFS (run exCfgBadMeta (createSteps exCfgBadMeta exValid) (some exFile)).1 ["x", "y"]).map
+    fun c => c.indexes.isSome) = some true := by decide
+-- an unknown storage option: ordered creation, merge (after its input check), unordered ingestion
+example : (runP exCfg (pipeline (optsPre false) exCfg exValid) ⟨some exFile, none⟩) =
+    (⟨some exFile, none⟩, some (.err .value)) := by decide
+example : (runP exCfg (pipeline (producerPre true ++ optsPre false) exCfg exValid) ⟨some exFile, none⟩) =
+    (⟨some exFile, none⟩, some (.err .value)) := by decide
+example : (runP exCfg (pipeline (unorderedPreBadOpts exTcfg exValid) exCfg []) ⟨some exFile, none⟩) =
+    (⟨some exFile, none⟩, some (.err .value)) := by decide
+
 end Cooler.C13
